@@ -177,20 +177,27 @@ class Sched:
             t.start()
         with self.cv:
             self._pick()
-        for i, t in enumerate(threads):
-            if i in self.parked:
-                continue
-            t.join(timeout)
-            if t.is_alive() and i not in self.parked:
+        import time as _time
+
+        deadline = _time.time() + timeout
+        while True:
+            pending = [t for i, t in enumerate(threads) if t.is_alive() and i not in self.parked]
+            if not pending:
+                break
+            if _time.time() > deadline:
                 with self.cv:
-                    self.aborted = Deadlock("thread %d did not finish" % i)
+                    self.aborted = Deadlock("threads did not finish within %.0f s" % timeout)
                     self.cv.notify_all()
                 break
-        # release parked threads
-        with self.cv:
-            if self.aborted is None:
-                self.aborted = SystemExit()
-            self.cv.notify_all()
+            pending[0].join(0.01)
+        # Parked ("killed") threads are never released: their finally blocks must not run (kill -9), not even
+        # at tear-down, since the files they left behind are inspected afterwards.  They stay blocked as daemon
+        # threads until the worker process exits.
+        if not self.parked:
+            with self.cv:
+                if self.aborted is None:
+                    self.aborted = SystemExit()
+                self.cv.notify_all()
 
 
 class SLock:
